@@ -195,11 +195,16 @@ func pkgCheck(data []byte) []string {
 	}
 	// relationships
 	type rel struct{ id, typ, target, mode string }
+	relsMemo := map[string]map[string]rel{}
 	relsOf := func(source string) map[string]rel {
+		if m, ok := relsMemo[source]; ok {
+			return m
+		}
 		dir, base := path.Split(source)
 		rp := dir + "_rels/" + base + ".rels"
 		t := tree(rp)
 		out := map[string]rel{}
+		relsMemo[source] = out
 		if t == nil {
 			return out
 		}
@@ -232,6 +237,21 @@ func pkgCheck(data []byte) []string {
 			}
 			if src != "" && src != "." && !has(src) {
 				bad("%s belongs to %s, which is not in the package", n, src)
+				continue
+			}
+			// every relationships part of the package (drawings, charts, comments, tables, pivot caches ...):
+			// internal targets exist, ids unique; the source's own r:id / r:embed / r:link / r:pict references resolve
+			rels := relsOf(src)
+			if st := tree(src); st != nil && src != "" {
+				st.walk(func(e *pkgElem) {
+					for k, v := range e.Attr {
+						if strings.HasPrefix(k, "r:") && v != "" {
+							if _, ok := rels[v]; !ok {
+								bad("%s: <%s %s=%q> has no relationship in %s", src, e.Name, k, v, n)
+							}
+						}
+					}
+				})
 			}
 		}
 	}
